@@ -166,6 +166,7 @@ class Recorder(object):
             if status == 'proved':
                 return ('discharged', 'sigma-normal-form + cancel; side conditions z3', 'identity closed; %d sum atoms' % len(nz.atoms))
             # not closed: look for a replayable counterexample
+            tried = 0
             for _ in range(self.n_refute):
                 env = Env(instance(self.nprng))
                 try:
@@ -174,6 +175,7 @@ class Recorder(object):
                     vs = evalx.ev(spec, env)
                 except evalx.EvalError as ex:
                     continue
+                tried += 1
                 try:
                     vn = native(env)
                 except Exception as ex:
@@ -182,8 +184,8 @@ class Recorder(object):
                 if not evalx.close(vs, vn, 1e-6, 1e-8):
                     return ('refuted', 'sigma-normal-form residual != 0; native replay', 'expected %r observed %r' % (vs, vn),
                             {'env': jsonable(env), 'expected': jsonable(vs), 'observed': jsonable(vn)}, str(res)[:400])
-            return ('undecided', 'sigma-normal-form', 'identity not closed (residual %s) but native agrees with the '
-                    'specification on %d instances' % (str(res)[:300], self.n_refute), None, str(res)[:400])
+            return ('undecided', 'sigma-normal-form', 'identity not closed (residual %s); native agrees with the '
+                    'specification on %d of %d sampled instances that satisfy the path condition' % (str(res)[:300], tried, self.n_refute), None, str(res)[:400])
         self.run(name, funcs, klass, go)
 
     def _replay_identity(self, spec, native, env):
